@@ -6,7 +6,7 @@ import ast
 import re
 
 from ..cfg import cfg_of
-from ..core import seq, AnalysisError, call_name, unparse, walk_no_nested
+from ..core import named_args, seq, AnalysisError, call_name, unparse, walk_no_nested
 from ..pattern import _parse, body_is, find, find_expr, has, has_expr, m_node
 from ..report import Ctx
 
@@ -248,7 +248,7 @@ return (_N, step)
         mods = [n for n in walk_no_nested(f.node) if isinstance(n, ast.Call) and call_name(n) == 'modify_controller']
         getc = [n for n in walk_no_nested(f.node) if isinstance(n, ast.Assign) and unparse(n.value) == 'self.get_configuration()']
         ok = len(setc) == 1 and bool(mods) and len(getc) == 1 and all(c.dominates(c.node_of(setc[0]), c.node_of(m)) for m in mods) and all(seq(m) < seq(getc[0]) for m in mods)
-        ok = ok and all({k.arg: unparse(k.value) for k in m.keywords}.get('circular') == 'True' for m in mods)
+        ok = ok and all(named_args(m).get('circular') == 'True' for m in mods)
         rets = [n for n in walk_no_nested(f.node) if isinstance(n, ast.Return)]
         ok = ok and all(unparse(r.value).startswith(f'({unparse(getc[0].targets[0])},') for r in rets)
         # positive part: no move before the whole configuration handed in has been applied
